@@ -340,13 +340,13 @@ function applyRewrite(rng, p, kind) {
     case "readonly": return mapProg(p, (t) => ((head(t) === "arr2" || head(t) === "tuple") && rng.chance(1, 2) ? [A("readonly"), t] : t));
     case "regroup-union": return mapProg(p, (t) => (head(t) === "union" && t.length > 3 ? [t[0], [A("union"), t[1], t[2]], ...t.slice(3)] : t));
     case "wrap-id": { // generic wrapper type Id<T> = T
-      const name = "Id" + rng.below(1000);
+      const name = freshName(rng, p, "Id");
       let used = false;
       const q = mapProg(p, (t) => (!(t instanceof Atom) && ["obj", "array", "union", "tuple"].includes(head(t)) && rng.chance(1, 5) ? ((used = true), [A("ref"), name, t]) : t));
       return used ? [q[0], [[A("alias"), name, ["X"], [A("ref"), "X"]], ...q[1]], q[2]] : p;
     }
     case "intro-alias": { // name a closed subterm of an export
-      const name = "Al" + rng.below(1000);
+      const name = freshName(rng, p, "Al");
       let body = null;
       const exps = p[2].map(([n, t]) => [n, mapTy(t, (x) => { if (body === null && !(x instanceof Atom) && ["obj", "array", "union", "tuple", "lit"].includes(head(x)) && rng.chance(1, 3)) { body = x; return [A("ref"), name]; } return x; })]);
       return body ? [p[0], [...p[1], [A("alias"), name, [], body]], exps] : p;
@@ -362,13 +362,18 @@ function applyRewrite(rng, p, kind) {
     case "rename": {
       if (!p[1].length) return p;
       const d = rng.pick(p[1]);
-      const nn = rng.pick(["Zz", "Aa", "Mm"]) + rng.below(1000);
+      const nn = freshName(rng, p, rng.pick(["Zz", "Aa", "Mm"]));
       const q = mapProgExcept(p, d[1], (t) => (head(t) === "ref" && t[1] === d[1] ? [t[0], nn, ...t.slice(2)] : t), true);
       return [q[0], q[1].map((x) => (x[1] === d[1] ? [x[0], nn, ...x.slice(2)] : x)), q[2]];
     }
     case "iface-alias": return [p[0], p[1].map((d) => (head(d) === "iface" && d[3].length === 0 ? [A("alias"), d[1], d[2], [A("obj"), d[4], A("none")]] : head(d) === "alias" && head(d[3]) === "obj" && isAtom(d[3][2], "none") && rng.chance(1, 2) ? [A("iface"), d[1], d[2], [], d[3][1]] : d)), p[2]];
   }
   return p;
+}
+// a name no declaration of the program has (two rewrites of one script once drew the same number: a duplicate
+// declaration is not a meaning-preserving rewrite)
+function freshName(rng, p, prefix) {
+  for (;;) { const n = prefix + rng.below(1000); if (!p[1].some((d) => d[1] === n)) return n; }
 }
 const REWRITES = ["perm-members", "perm-props", "perm-decls", "parens", "readonly", "regroup-union", "wrap-id", "intro-alias", "inline-alias", "rename", "iface-alias", "jsdoc"];
 function withJsdoc(src, rng) { return src.split("\n").map((l) => (/^(type|interface) /.test(l) && rng.chance(1, 2) ? "/** doc " + rng.below(100) + " */\n" + l : l)).join("\n"); }
